@@ -14,8 +14,10 @@ import (
 // Translator for the decisions of the matching passes (C11), individual_nodes.go:
 //   calculateWinners   the comparator of sort.SliceStable, and the statements of the winner loop in order
 //                      (threshold test with `break`, the `found` test with `continue`, send, the two marks)
-//   createPointerJobs  the statements of the loop body in order (sentA guard, ByPointer look-up, nil
-//                      guard, sentB guard, forced score, the `>= PreferPointerAbove` test and what it does)
+//   createPointerJobs  the statements of the pool's loop body in order (sentA guard, ByPointer look-up, nil
+//                      guard, sentB guard, forced score, the `>= PreferPointerAbove` test, which stores the
+//                      match at its left index) and of the sequential loop that emits the matches in left-slice
+//                      order (nil / sentA / sentB guards, adjust, send, the two stores)
 // printed as terms of Gedcom.MatchSrc (lean/Gedcom/Model/MatchSrc.lean). Statements and operands are
 // recognised by their exact printed text; anything else becomes "bad" / `.bad` and is rejected by the
 // obligation in Props/C11Src.lean.
@@ -79,7 +81,7 @@ func init() {
 		fset := token.NewFileSet()
 		af, err := parser.ParseFile(fset, filepath.Join(repoRoot(), "individual_nodes.go"), nil, 0)
 		less, brk, accept := "⟨.bad, .bad, .bad⟩", "⟨.bad, .bad, .bad⟩", "⟨.bad, .bad, .bad⟩"
-		winnerLoop, pointerLoop, acceptBody := []string{"not-found"}, []string{"not-found"}, []string{"not-found"}
+		winnerLoop, pointerLoop, acceptBody, pointerEmit := []string{"not-found"}, []string{"not-found"}, []string{"not-found"}, []string{"not-found"}
 		stable := false
 		if err == nil {
 			for _, d := range af.Decls {
@@ -148,6 +150,48 @@ func init() {
 						return true
 					})
 				case "createPointerJobs":
+					// the sequential loop `for _, match := range matches` after the pool
+					for _, top := range fd.Body.List {
+						rs, ok := top.(*ast.RangeStmt)
+						if !ok || msrcText(fset, rs.X) != "matches" || rs.Value == nil || msrcText(fset, rs.Value) != "match" {
+							continue
+						}
+						pointerEmit = nil
+						for _, st := range rs.Body.List {
+							t := msrcText(fset, st)
+							switch st := st.(type) {
+							case *ast.IfStmt:
+								init := ""
+								if st.Init != nil {
+									init = msrcText(fset, st.Init)
+								}
+								cond := msrcText(fset, st.Cond)
+								switch {
+								case st.Else == nil && msrcOnly(st.Body, token.CONTINUE) && init == "" && cond == "match == nil":
+									pointerEmit = append(pointerEmit, "skip-if-nil(match)")
+								case st.Else == nil && msrcOnly(st.Body, token.CONTINUE) && init == "_, ok := options.sentA.Load(match.Left.Pointer())" && cond == "ok":
+									pointerEmit = append(pointerEmit, "skip-if-sentA(match.Left)")
+								case st.Else == nil && msrcOnly(st.Body, token.CONTINUE) && init == "_, ok := options.sentB.Load(match.Right.Pointer())" && cond == "ok":
+									pointerEmit = append(pointerEmit, "skip-if-sentB(match.Right)")
+								default:
+									pointerEmit = append(pointerEmit, "bad")
+								}
+							default:
+								switch t {
+								case "options.adjustTotal(totals)":
+									pointerEmit = append(pointerEmit, "adjust")
+								case "jobs <- match":
+									pointerEmit = append(pointerEmit, "send:match")
+								case "options.sentA.Store(match.Left.Pointer(), nil)":
+									pointerEmit = append(pointerEmit, "storeA(match.Left)")
+								case "options.sentB.Store(match.Right.Pointer(), nil)":
+									pointerEmit = append(pointerEmit, "storeB(match.Right)")
+								default:
+									pointerEmit = append(pointerEmit, "bad")
+								}
+							}
+						}
+					}
 					ast.Inspect(fd.Body, func(n ast.Node) bool {
 						fs, ok := n.(*ast.ForStmt)
 						if !ok {
@@ -189,6 +233,9 @@ func init() {
 										for _, bs := range st.Body.List {
 											t := msrcText(fset, bs)
 											switch {
+											case strings.HasPrefix(t, "matches[leftI] = &IndividualComparison{") && strings.Contains(t, "Left: a,") &&
+												strings.Contains(t, "Right: b,") && strings.Contains(t, "Similarity: ss,") && strings.Contains(t, "certainMatch: true,"):
+												acceptBody = append(acceptBody, "store-match:certain(a,b)@leftI")
 											case t == "options.adjustTotal(totals)":
 												acceptBody = append(acceptBody, "adjust")
 											case strings.HasPrefix(t, "jobs <- &IndividualComparison{") && strings.Contains(t, "Left: a,") &&
@@ -228,6 +275,7 @@ func init() {
 		fmt.Fprintf(&b, "/-- the statements of the loop of createPointerJobs, in order -/\ndef srcPointerLoop : List String := %s\n", msrcStrs(pointerLoop))
 		fmt.Fprintf(&b, "/-- a pointer pair is a certain match when … -/\ndef srcAccept : Fact := %s\n", accept)
 		fmt.Fprintf(&b, "/-- what is done with an accepted pointer pair, in order -/\ndef srcAcceptBody : List String := %s\n", msrcStrs(acceptBody))
+		fmt.Fprintf(&b, "/-- the statements of `for _, match := range matches` after the pool (left-slice order), in order -/\ndef srcPointerEmit : List String := %s\n", msrcStrs(pointerEmit))
 		b.WriteString("\nend Gedcom.Generated\n")
 		return b.String()
 	}
